@@ -1226,6 +1226,14 @@ class Interp:
                 raise PyRaise(ExcVal(TypeError))
         return Opaque('%-format')
 
+    def need(self, v, exc=TypeError):
+        """a non-None value is required here (Python would raise `exc` on None)"""
+        if isinstance(v, Opt):
+            return self.unwrap(v, exc)
+        if v is None and not self.spec:
+            raise PyRaise(ExcVal(exc))
+        return v
+
     def unwrap(self, v, exc=AttributeError):
         if isinstance(v, Opt):
             if self.spec:
